@@ -197,12 +197,15 @@ package satisfaction
 //@ wire satisfactionAddedCriterion
 //@   property C01 C07 C20
 //@   json Params=params,omitempty
+//@   gotypes Params=interface{}
 //@ wire SatisfactionParameters
 //@   property C01 C09 C13 C20
 //@   json Function=function Params=params RandomSeed=randomSeed CurrentChoice=currentChoice RandomAlternativesOrdering=randomAlternativesOrdering
+//@   gotypes Function=string Params=interface{} RandomSeed=int64 CurrentChoice=model.Alternative RandomAlternativesOrdering=bool
 //@ wire SatisfactionEvaluation
 //@   property C01 C09 C13 C20
 //@   json SatisfiedThresholds=satisfiedThresholds ThresholdsIndex=thresholdsIndex
+//@   gotypes SatisfiedThresholds=model.Weights ThresholdsIndex=int
 
 // ---- registered names (what a request must say to select this object; what error messages list)
 //@ func (*SatisfactionBiasListener).Identifier
